@@ -3,6 +3,7 @@ package main
 import (
 	"crypto/tls"
 	"fmt"
+	"io"
 	"strings"
 
 	vrt "verif/rt"
@@ -28,25 +29,28 @@ type Spec struct {
 }
 
 type ConnSpec struct {
-	Ops        []string       // requests in send order
-	Segs       []int          // send boundaries: numbers of requests per write (nil = each Write carries everything up to the next StartTLS)
-	H          map[int]*HSpec // handler behaviour by request index (1-based)
-	Expect     int            // plaintext frames to read before End (when Read == "")
-	Read       string         // "" = read Expect frames | "all" = until EOF/error | "none"
-	End        string         // "close" (default) | "reset" | "stay" | "half" (send half a frame, then stay)
-	TLS        string         // "" | "listener" | "listener-nohello" | "listener-halfhello" | "plain-to-tls"
-	TLSCfg     *tls.Config
-	RecvBuf    int
-	WaitNote   string
-	IdleFor    int    // virtual seconds to sleep before End
-	EndNote    string // wait for this note before End
-	Sync       bool   // wait for the answers to everything sent so far before sending the next segment
-	After      int    // >0: this connection is opened by the thread of connection number After (1-based) once that one has ended
-	ReadNote   string // wait for this note after sending and before reading anything
-	IdleBefore int    // virtual seconds to sleep after connecting and before sending anything
-	SendNote   string // wait for this note before sending the last segment
-	AckAt      int    // after this many frames have been read, raise AckNote (then go on reading)
-	AckNote    string
+	Ops           []string       // requests in send order
+	Segs          []int          // send boundaries: numbers of requests per write (nil = each Write carries everything up to the next StartTLS)
+	H             map[int]*HSpec // handler behaviour by request index (1-based)
+	Expect        int            // plaintext frames to read before End (when Read == "")
+	Read          string         // "" = read Expect frames | "all" = until EOF/error | "none"
+	End           string         // "close" (default) | "reset" | "stay" | "half" (send half a frame, then stay)
+	TLS           string         // "" | "listener" | "listener-nohello" | "listener-halfhello" | "plain-to-tls"
+	TLSCfg        *tls.Config
+	RecvBuf       int
+	WaitNote      string
+	IdleFor       int    // virtual seconds to sleep before End
+	EndNote       string // wait for this note before End
+	Sync          bool   // wait for the answers to everything sent so far before sending the next segment
+	After         int    // >0: this connection is opened by the thread of connection number After (1-based) once that one has ended
+	ReadNote      string // wait for this note after sending and before reading anything
+	IdleBefore    int    // virtual seconds to sleep after connecting and before sending anything
+	SendNote      string // wait for this note before sending the last segment
+	DialAfter     int    // virtual seconds to sleep before connecting
+	ReadFor       int    // with Read == "all": give up reading after this many virtual seconds without EOF
+	IdleAfterSend int    // virtual seconds to sleep after sending and before reading anything
+	AckAt         int    // after this many frames have been read, raise AckNote (then go on reading)
+	AckNote       string
 	// ClearBehind: a request sent in the clear in the same write as the StartTLS request, directly behind it
 	// (request index 90); RFC 4511 4.14.1 forbids it, an attacker on the path can do it
 	ClearBehind string
@@ -61,8 +65,15 @@ func opMsgID(op string, ci, k int) int64 {
 	if isZeroID(op) {
 		return 0
 	}
+	if isDupID(op) {
+		return msgID(ci, k-1)
+	}
 	return msgID(ci, k)
 }
+
+// "<op>@dup" is <op> sent with the message ID of the request before it: RFC 4511 4.1.1.1 tells clients not to
+// do that while the first is in progress, but the request is a well-formed request all the same.
+func isDupID(op string) bool { return strings.HasSuffix(op, "@dup") }
 
 // "<op>@0" is <op> sent with message ID 0; "unbind0" is the same for Unbind.
 func isZeroID(op string) bool { return op == "unbind0" || strings.HasSuffix(op, "@0") }
@@ -70,7 +81,7 @@ func baseOp(op string) string {
 	if op == "unbind0" {
 		return "unbind"
 	}
-	return strings.TrimSuffix(op, "@0")
+	return strings.TrimSuffix(strings.TrimSuffix(op, "@0"), "@dup")
 }
 
 func isUnbind(op string) bool { return op == "unbind" || op == "unbind0" }
@@ -170,7 +181,7 @@ var curSpec *Spec
 func needsStartTLS(sp *Spec) bool {
 	for _, c := range sp.Conns {
 		for _, o := range c.Ops {
-			if o == "starttls" || o == "starttls-silent" || o == "starttls-badhello" {
+			if o == "starttls" || o == "starttls-silent" || o == "starttls-badhello" || o == "starttls-badhello-alert" {
 				return true
 			}
 		}
@@ -181,6 +192,9 @@ func needsStartTLS(sp *Spec) bool {
 func runClient(w *World, ci int, name string, cs *ConnSpec) {
 	if cs.WaitNote != "" {
 		vrt.WaitUntil(cs.WaitNote, func() bool { return w.Notes[cs.WaitNote] > 0 })
+	}
+	if cs.DialAfter > 0 {
+		vrt.Sleep(secs(cs.DialAfter))
 	}
 	cl := w.Dial(name, cs.RecvBuf)
 	if cl.DialErr != nil {
@@ -257,6 +271,20 @@ func runClient(w *World, ci int, name string, cs *ConnSpec) {
 			_ = cl.Send([]byte{0x16, 0x03, 0x01, 0x00, 0x05, 0x01, 0x00, 0x00, 0x01, 0x00})
 			continue
 		}
+		if op == "starttls-badhello-alert" {
+			// as above, but the client stays: it reads the TLS alert the server answers with and goes on in the clear
+			flush()
+			_ = cl.Send(reqBytes("starttls", msgID(ci, k)))
+			expectSoFar++
+			cl.ReadFrames(expectSoFar)
+			_ = cl.Send([]byte{0x16, 0x03, 0x01, 0x00, 0x05, 0x01, 0x00, 0x00, 0x01, 0x00})
+			hdr := make([]byte, 5)
+			if _, err := io.ReadFull(cl.NC, hdr); err == nil && hdr[0] == 0x15 {
+				_, _ = io.ReadFull(cl.NC, make([]byte, int(hdr[3])<<8|int(hdr[4])))
+				vrt.Atomic(func() { w.Notes[name+"-alert-read"]++ })
+			}
+			continue
+		}
 		if op == "starttls-silent" {
 			// the StartTLS request is sent and answered, but the client never starts the handshake
 			flush()
@@ -284,6 +312,9 @@ func runClient(w *World, ci int, name string, cs *ConnSpec) {
 		}
 	}
 	flush()
+	if cs.IdleAfterSend > 0 {
+		vrt.Sleep(secs(cs.IdleAfterSend))
+	}
 	if cs.ReadNote != "" {
 		vrt.WaitUntil(cs.ReadNote, func() bool { return w.Notes[cs.ReadNote] > 0 })
 	}
@@ -299,6 +330,9 @@ func runClient(w *World, ci int, name string, cs *ConnSpec) {
 			cl.ReadFrames(cs.Expect)
 		}
 	case "all":
+		if cs.ReadFor > 0 {
+			_ = cl.NC.SetReadDeadline(vrt.Now().Add(secs(cs.ReadFor)))
+		}
 		cl.ReadAll()
 	}
 	if cs.IdleFor > 0 {
@@ -336,7 +370,7 @@ func (sp *Spec) realOK() bool {
 		return false
 	}
 	for _, c := range sp.Conns {
-		if c.RecvBuf > 0 || c.IdleFor > 0 || c.IdleBefore > 0 || c.End == "stay" || c.End == "half" || c.ReadNote != "" || c.AckAt > 0 || c.SendNote != "" {
+		if c.RecvBuf > 0 || c.IdleFor > 0 || c.IdleBefore > 0 || c.End == "stay" || c.End == "half" || c.ReadNote != "" || c.AckAt > 0 || c.SendNote != "" || c.DialAfter > 0 || c.IdleAfterSend > 0 || c.ReadFor > 0 {
 			return false
 		}
 	}
